@@ -123,14 +123,14 @@ Example Whole_xls_codepage_nonvacuous : forall fdiv100 : N -> N,
             xfile_legal fdiv100 BiffRec_proofs.id_decode ex_wb (XlsFileCodePage_proofs.cp_choice cp) /\
             xls_open_model fdiv100 BiffRec_proofs.id_decode (fun _ => []) 1
                            (xls_file_write ex_wb (XlsFileCodePage_proofs.cp_choice cp)) =
-            Ok (spec_result ex_wb (XlsFileCodePage_proofs.cp_choice cp)) /\
-            spec_result ex_wb (XlsFileCodePage_proofs.cp_choice cp) = spec_result ex_wb ex_ch)
+            Ok (spec_result (fun _ => []) ex_wb (XlsFileCodePage_proofs.cp_choice cp)) /\
+            spec_result (fun _ => []) ex_wb (XlsFileCodePage_proofs.cp_choice cp) = spec_result (fun _ => []) ex_wb ex_ch)
          [1252; 932; 1200; 65001; 54321] /\
   xfile_legal fdiv100 BiffRec_proofs.id_decode ex_wb XlsFileCodePage_proofs.cp_choice_two /\
   xls_open_model fdiv100 BiffRec_proofs.id_decode (fun _ => []) 1
                  (xls_file_write ex_wb XlsFileCodePage_proofs.cp_choice_two) =
-  Ok (spec_result ex_wb XlsFileCodePage_proofs.cp_choice_two) /\
-  spec_result ex_wb XlsFileCodePage_proofs.cp_choice_two = spec_result ex_wb ex_ch /\
+  Ok (spec_result (fun _ => []) ex_wb XlsFileCodePage_proofs.cp_choice_two) /\
+  spec_result (fun _ => []) ex_wb XlsFileCodePage_proofs.cp_choice_two = spec_result (fun _ => []) ex_wb ex_ch /\
   firstn 12 (skipn 20 (xls_stream_write ex_wb (XlsFileCodePage_proofs.cp_choice 1252))) =
     [225; 0; 2; 0; 176; 4; 66; 0; 2; 0; 228; 4].
 Proof. exact XlsFileCodePage_proofs.example_whole_codepage. Qed.
